@@ -68,6 +68,10 @@ type parseContext struct {
 	snippets map[string][]Node
 	macros   map[string][]string
 
+	// expandedNodes is the amount of nodes added by import expansion so far,
+	// shared with the contexts of all imported files.
+	expandedNodes *int
+
 	fileLocation string
 }
 
@@ -348,13 +352,14 @@ func (ctx *parseContext) readNodes() ([]Node, error) {
 	return res, nil
 }
 
-func readTree(r io.Reader, location string, expansionDepth int) (nodes []Node, snips map[string][]Node, macros map[string][]string, err error) {
+func readTree(r io.Reader, location string, expansionDepth int, expandedNodes *int) (nodes []Node, snips map[string][]Node, macros map[string][]string, err error) {
 	ctx := parseContext{
-		Dispenser:    lexer.NewDispenser(location, r),
-		snippets:     make(map[string][]Node),
-		macros:       map[string][]string{},
-		nesting:      -1,
-		fileLocation: location,
+		Dispenser:     lexer.NewDispenser(location, r),
+		snippets:      make(map[string][]Node),
+		macros:        map[string][]string{},
+		nesting:       -1,
+		fileLocation:  location,
+		expandedNodes: expandedNodes,
 	}
 
 	root := Node{}
@@ -408,7 +413,7 @@ func checkNesting(nodes []Node, nesting int) error {
 }
 
 func Read(r io.Reader, location string) (nodes []Node, err error) {
-	nodes, _, _, err = readTree(r, location, 0)
+	nodes, _, _, err = readTree(r, location, 0, new(int))
 	nodes = expandEnvironment(nodes)
 	return
 }
